@@ -1386,6 +1386,7 @@ Proof.
     destruct k as [| |c].
     + now apply (sinv_ret s0 t s _ I A N).
     + destruct inc as [e|]; [now apply (sinv_ret s0 t s _ I A N)|].
+      destruct (ckif_spins _ _ _); [|now apply (sinv_ret s0 t s _ I A N)].
       cbn [fst blocked].
       assert (R1 : Run [t] s0 (set_running (bare_yield s t) None)).
       { eapply run_trans; [exact R0|]. apply run_n; [exact T|].
